@@ -157,15 +157,7 @@ class Ghost:
         conns = [p.connection for p in dn.children]
         check(len(set(map(id, conns))) == len(conns), 'child_listed_once', sig=ev)
         # -- admission
-        n_prev = len(self.children_prev)
-        for ch in dn.children:
-            if not any(ch.connection is x for x in self.children_prev):
-                c.reach('admission')
-                check(conj(self.accept_prev, n_prev < self.max_prev), 'child_admission_limits', sig=ev)
-                check(conj(*[ch.username != p for p in self.pp_prev]) if self.pp_prev else True,
-                        'potential_parent_not_child', sig=ev)
-                check(ev[0] != 'outgoing', 'potential_parent_not_child', sig=ev)
-                n_prev += 1
+        self.check_admission(ev, check)
         # -- advertised position
         pv = None
         if parent is not None:
@@ -177,6 +169,13 @@ class Ghost:
                 return False
         lvl, root, search = position(w.own, pv)
         loop_case = same(root, w.own) if parent is not None else False   # parent names *us* as its root
+        if not c.symbolic:
+            c.note('after', ev, {'parent': parent.username if parent else None,
+                                 'children': [ch.username for ch in dn.children],
+                                 'expected (level, root, search)': [lvl, root, search],
+                                 'server was told': [self.server.level, self.server.root, self.server.search],
+                                 'children were told': [[(self.told.get(ch.connection) or View()).level,
+                                                        (self.told.get(ch.connection) or View()).root] for ch in dn.children]})
         if has_session:
             sv = self.server
             ok = conj(same(sv.level, lvl), same(sv.root, root), same(sv.search, search))
@@ -191,6 +190,22 @@ class Ghost:
                 check(imp(loop_case, ok), 'child_told_position_parent_root_is_own_name', sig=ev)
         self.snapshot()
         return self.ok
+
+    def check_admission(self, ev, check=None):
+        """children that joined since the last snapshot: acceptance was on, the number of children was below the
+        maximum, the user was not in the potential-parent cache, and we did not open the connection ourselves"""
+        c, dn = self.c, self.w.dn
+        check = check or (lambda cond, label, sig=None: c.check(cond, label, sig=sig))
+        n_prev = len(self.children_prev)
+        for ch in dn.children:
+            if not any(ch.connection is x for x in self.children_prev):
+                c.reach('admission')
+                check(conj(self.accept_prev, n_prev < self.max_prev), 'child_admission_limits', sig=ev)
+                check(conj(*[ch.username != p for p in self.pp_prev]) if self.pp_prev else True,
+                      'potential_parent_not_child', sig=ev)
+                check(ev[0] != 'outgoing', 'potential_parent_not_child', sig=ev)
+                n_prev += 1
+        self.children_prev = [p.connection for p in dn.children]
 
     # ---- reference for the limits ---------------------------------------------
     def on_stats(self, user, speed):
@@ -279,9 +294,53 @@ def ev_sig(dn, kind, conn):
 # H1: one event from an arbitrary state satisfying the invariant
 # -------------------------------------------------------------------------------------
 
+def build_pre_state(c, w: World, roles, kinds, concrete_names=False):
+    """an arbitrary state satisfying the invariant in which each peer has the role given by `roles`.  State that
+    only some events read is only varied when one of those events (`kinds`) is going to happen."""
+    dn = w.dn
+    conns, peers = {}, {}
+    for i, r in enumerate(roles):
+        if r == 'absent':
+            continue
+        u = nm(c, i + 1) if concrete_names else tok(c, f'u{i}', 1)
+        conn = conns[i] = w.new_peer_conn(u)
+        if r == 'connecting':
+            conn.state = ConnectionState.CONNECTING
+            continue
+        peer = peers[i] = DistributedPeer(u, conn)
+        dn.distributed_peers.append(peer)
+        if r == 'child':
+            dn.children.append(peer)
+        elif r == 'parent':
+            dn.parent = peer
+            peer.branch_level = c.fresh_int('parent_level', 0, MAX_LEVEL)
+            peer.branch_root = tok(c, 'parent_root')
+    dn._accept_children = c.fresh_bool('accept_children')
+    dn._max_children = c.fresh_int('max_children', 0, U32)
+    if 'user_stats' in kinds and c.choose(2, 'have_server_values') == 1:
+        dn.parent_min_speed = c.fresh_int('parent_min_speed', 0, U32)
+        dn.parent_speed_ratio = c.fresh_int('parent_speed_ratio', 1, U32)
+    if 'incoming' in kinds or 'outgoing' in kinds:
+        for j in range(c.choose(3, 'pp_len')):
+            dn.potential_parents.append(tok(c, f'pp{j}', 1))
+    g = Ghost(c, w)
+    g.assume_invariant()
+    return conns, peers, g
+
+
+def earlier_announcements(c, g: Ghost, dn, peer, conn, kind, tag=''):
+    """what the sender announced before (the parent has both by the invariant).  A level announcement overwrites
+    the earlier level, so that one is not varied for a 'level' event."""
+    if peer is not None and peer is not dn.parent:
+        pv = g.peer_view.setdefault(conn, View())
+        if kind != 'level' and c.choose(2, f'sender_has_level{tag}') == 1:
+            peer.branch_level = pv.level = c.fresh_int(f'sender_level{tag}', 0, MAX_LEVEL)
+        if c.choose(2, f'sender_has_root{tag}') == 1:
+            peer.branch_root = pv.root = tok(c, f'sender_root{tag}')
+
+
 def h_step(c, roles, session=True, kinds=None):
-    """pre-state: each of the peers has the role given by `roles`; everything else that the event can read is
-    symbolic (or, where only its shape matters, chosen).  One event, then every clause."""
+    """one event from the arbitrary pre-state, then every clause"""
     with IntShim(c.symbolic):
         live_idx = [i for i, r in enumerate(roles) if r != 'absent']
         ks = list(kinds) if kinds else list(PEER_EVENTS + GLOBAL_EVENTS)
@@ -292,52 +351,63 @@ def h_step(c, roles, session=True, kinds=None):
         sender_idx = c.pick(live_idx, 'sender') if kind in PEER_EVENTS else None
         if sender_idx is not None and roles[sender_idx] == 'connecting' and kind != 'close':
             return      # nothing can be received on a connection that is not initialised yet
-
         w = World(c, with_session=session)
         dn = w.dn
-        conns, peers = {}, {}
-        for i, r in enumerate(roles):
-            if r == 'absent':
-                continue
-            u = tok(c, f'u{i}', 1)
-            conn = conns[i] = w.new_peer_conn(u)
-            if r == 'connecting':
-                conn.state = ConnectionState.CONNECTING
-                continue
-            peer = peers[i] = DistributedPeer(u, conn)
-            dn.distributed_peers.append(peer)
-            if r == 'child':
-                dn.children.append(peer)
-            elif r == 'parent':
-                dn.parent = peer
-                peer.branch_level = c.fresh_int('parent_level', 0, MAX_LEVEL)
-                peer.branch_root = tok(c, 'parent_root')
-        dn._accept_children = c.fresh_bool('accept_children')
-        dn._max_children = c.fresh_int('max_children', 0, U32)
-        # state that only some events read is only varied for those events
-        if kind == 'user_stats' and c.choose(2, 'have_server_values') == 1:
-            dn.parent_min_speed = c.fresh_int('parent_min_speed', 0, U32)
-            dn.parent_speed_ratio = c.fresh_int('parent_speed_ratio', 1, U32)
-        if kind in ('incoming', 'outgoing'):
-            for j in range(c.choose(3, 'pp_len')):
-                dn.potential_parents.append(tok(c, f'pp{j}', 1))
-        g = Ghost(c, w)
-        g.assume_invariant()
-
+        conns, peers, g = build_pre_state(c, w, roles, [kind])
         conn = conns[sender_idx] if sender_idx is not None else None
         if conn is not None and kind != 'close':
-            # the sender's earlier announcements (the parent has both by the invariant)
-            peer = peers.get(sender_idx)
-            if peer is not None and peer is not dn.parent:
-                pv = g.peer_view.setdefault(conn, View())
-                if c.choose(2, 'sender_has_level') == 1:
-                    peer.branch_level = pv.level = c.fresh_int('sender_level', 0, MAX_LEVEL)
-                if c.choose(2, 'sender_has_root') == 1:
-                    peer.branch_root = pv.root = tok(c, 'sender_root')
+            earlier_announcements(c, g, dn, peers.get(sender_idx), conn, kind)
         ev = ev_sig(dn, kind, conn)
         apply_event(c, w, g, kind, conn)
         c.reach('ev_' + kind)
         g.check(ev)
+        w.cleanup()
+
+
+# -------------------------------------------------------------------------------------
+# H1b: two events that overlap in time.  A socket stalls (the server socket does not drain, or the close of
+# one peer connection does not finish), so the handler of the first event is suspended in the send / disconnect
+# it triggered while the second event is handled; then the socket recovers.  Every clause at the end.
+# -------------------------------------------------------------------------------------
+
+OVERLAP_EVENTS = ('level', 'root', 'close', 'incoming', 'reset')
+
+
+def h_overlap(c, roles, stall, e1):
+    with IntShim(c.symbolic):
+        live_idx = [i for i, r in enumerate(roles) if r != 'absent']
+        w = World(c)
+        dn = w.dn
+        conns, peers, g = build_pre_state(c, w, roles, [], concrete_names=True)
+        if stall == 'server':
+            w.server.fake_writer.hang_drain = True
+            stalled = w.server.fake_writer
+        else:
+            if stall not in conns:
+                return
+            stalled = conns[stall].fake_writer
+            stalled.hang_close = True
+        sigs = []
+        for n, kind in enumerate((e1, None)):
+            if kind is None:
+                kind = c.pick(OVERLAP_EVENTS, 'event2')
+            conn = None
+            if kind in PEER_EVENTS:
+                senders = [i for i in live_idx if conns[i].state is ConnectionState.CONNECTED]
+                if not senders:
+                    w.cleanup()
+                    return
+                si = c.pick(senders, f'sender{n}')
+                conn = conns[si]
+                if kind != 'close':
+                    earlier_announcements(c, g, dn, peers.get(si), conn, kind, tag=f'_{n}')
+            sigs.append(ev_sig(dn, kind, conn)[:1])
+            apply_event(c, w, g, kind, conn, tag=f'_{n}')
+            g.check_admission(['overlap', kind])
+        c.reach('overlapped' if w.loop.pending_tasks() else 'no_overlap')
+        stalled.release()
+        w.settle()
+        g.check(['overlap', 'server' if stall == 'server' else 'close_of_' + roles[stall]] + sigs[0] + sigs[1])
         w.cleanup()
 
 
@@ -445,14 +515,15 @@ META = {
                    'real PeerConnection objects whose socket is a recording writer, so queue_messages, send_message (closing check), '
                    'disconnect and the CLOSING/CLOSED state changes are the real code. Levels (uint32), upload speed, parent_min_speed, '
                    'parent_speed_ratio, _max_children and _accept_children are z3 values; names are tokens in a 6-value domain. After '
-                   'every event the harness compares parent/children/connection states and the last values told to the server and to '
+                   'every event (and after two events that overlap in time because a socket stalls) the harness compares parent/children/connection states and the last values told to the server and to '
                    'each child (as a receiver following the protocol convention would understand them) with the position derived from '
                    'what the current parent announced.',
     'functions': FUNCS,
     'stubs': ['Network built with object.__new__: only _event_bus, peer_connections, server_connection, _MESSAGE_MAP={}, '
               '_expected_response_futures=[] are set; its real on_state_changed/on_message_received/send_server_messages/remove_peer_connection run',
               'Network.create_peer_connection -> future completed by the harness (emits PeerInitializedEvent(requested=True) from inside the task, as _make_direct_connection does)',
-              'StreamWriter -> recording FakeWriter (drain/wait_closed return at once)',
+              'StreamWriter -> recording FakeWriter (drain/wait_closed return at once; in the overlap harness one of them waits until the harness releases it)',
+              'symbolic runs only: Settings.credentials.username -> own-name token (delegating wrapper around the real Settings)',
               'symbolic runs only: connection.encode_message_data -> identity (frames are the message objects); concrete replay serialises with the real codec and decodes the frames back',
               'symbolic runs only: distributed.int -> truncation that understands symbolic reals',
               'peer connections are put into CONNECTED/ESTABLISHED by assignment (no socket, no reader task)',
@@ -462,12 +533,14 @@ META = {
                        'parent_min_speed (uint32)', 'parent_speed_ratio (1..2^32-1)', '_max_children (uint32)', '_accept_children (Bool)'],
     'discriminants': ['role of each of the 3..4 peers (absent / candidate / child / parent / connecting)', 'event kind (12)', 'sender',
                       'session present or not', 'which of level/root the sender announced before', 'length of the potential-parent cache (0..2) and of a list (1..2)',
-                      'number of children in the limit harness (0..3)'],
-    'bounds': {'quick': {'peers': 3, 'step': 'every role assignment over absent/cand/child/parent x every event x every sender',
-                         'sequence_length': 4},
-               'thorough': {'peers': 4, 'step': 'every role assignment over 5 roles x every event x every sender', 'sequence_length': 5}},
-    'outside': ['events that overlap in time (a second message handled while the first handler is suspended in a send): events are atomic here',
-                'send failures / write errors / hanging sockets', 'settings.debug.search_for_parent = False',
+                      'number of children in the limit harness (0..3)',
+                      'overlap harness: which socket stalls (server drain / close of one peer connection), the two overlapping events'],
+    'bounds': {'quick': {'peers': 3, 'step': 'every role assignment over absent/cand/child/parent x session yes/no x every event x every sender',
+                         'sequence_length': 4, 'overlap': '2 role assignments x every stalled socket x first event in {level, close} x every second event'},
+               'thorough': {'peers': 4, 'step': 'every role assignment over 5 roles x session yes/no x every event x every sender', 'sequence_length': 5,
+                            'overlap': 'every 3-peer role assignment x every stalled socket x every pair of events'}},
+    'outside': ['more than two events overlapping in time; schedules other than FIFO (overlap is produced by a stalled socket only)',
+                'send failures / write errors', 'settings.debug.search_for_parent = False',
                 'a parent announcing level 2^32-1 (level+1 does not fit the wire format; the serialiser drops the message)',
                 'parent_speed_ratio = 0 (ZeroDivisionError inside _on_get_user_stats, swallowed by EventBus.emit)',
                 'IEEE double rounding in _calculate_max_children (exact rationals in the encoding)',
@@ -508,6 +581,14 @@ def jobs(tier):
             for second in range(SEQ_SECOND[first]):
                 out.append({'harness': 'seq', 'fn': h_seq, 'params': {'k': 5, 'first': first, 'second': second},
                             'requires': ['seq_end']})
+    q_roles = [['cand', 'cand', 'child'], ['parent', 'cand', 'child']]
+    for t in (q_roles if tier == 'quick' else list(_role_tuples(3, ('absent', 'cand', 'child', 'parent')))):
+        if all(r == 'absent' for r in t):
+            continue
+        for stall in ['server'] + [i for i, r in enumerate(t) if r != 'absent']:
+            for e1 in (('level', 'close') if tier == 'quick' else OVERLAP_EVENTS):
+                out.append({'harness': 'overlap', 'fn': h_overlap, 'params': {'roles': t, 'stall': stall, 'e1': e1},
+                            'requires': ['overlapped'] if (stall == 'server' and e1 == 'level' and 'parent' in t) else []})
     for n in range(0, 4):
         for ratio in ([50, 3] if tier == 'quick' else [50, 30, 3, 1, None]):
             out.append({'harness': 'limits', 'fn': h_limits, 'params': {'n_children': n, 'server_values': True, 'ratio': ratio},
@@ -515,3 +596,28 @@ def jobs(tier):
         out.append({'harness': 'limits', 'fn': h_limits, 'params': {'n_children': n, 'server_values': False},
                     'requires': ['limits_set', 'admission']})
     return out
+
+
+def prelude(tier):
+    """validation of the reference and of the frame decoding used in concrete replay"""
+    from aioslsk.protocol.messages import BranchLevel, BranchRoot, ToggleParentSearch, ServerMessage, DistributedMessage
+    notes = []
+    # reference child limit against the table pinned in tests/unit/test_distributed.py
+    table = [((1023, 1, 50), (False, 0)), ((1024, 1, 50), (True, 0)), ((20480, 1, 50), (True, 4)), ((20480, 1, 30), (True, 6)),
+             ((1023, None, None), (False, 0)), ((1025, None, None), (True, 0)), ((1024 + 5 * 1024, None, None), (True, 1))]
+    for (speed, ms, ra), want in table:
+        got = ref_limits(speed, ms, ra)
+        if got != want:
+            raise symex.HarnessError(f'ref_limits{(speed, ms, ra)} = {got}, pinned {want}')
+    notes.append(f'ref_limits agrees with {len(table)} pinned rows of tests/unit/test_distributed.py')
+    # frames written in concrete replay decode back to the message that was sent
+    for m, dec in [(BranchLevel.Request(7), ServerMessage.deserialize_request), (BranchRoot.Request('user3'), ServerMessage.deserialize_request),
+                   (ToggleParentSearch.Request(True), ServerMessage.deserialize_request),
+                   (DistributedBranchLevel.Request(2 ** 32 - 1), DistributedMessage.deserialize_request),
+                   (DistributedBranchRoot.Request('user0'), DistributedMessage.deserialize_request)]:
+        if dec(m.serialize()) != m:
+            raise symex.HarnessError(f'frame decoding does not round-trip {m!r}')
+    notes.append('frame decoder round-trips the 5 advertised-position messages')
+    if sym_int(3.99) != 3 or sym_int(7) != 7:
+        raise symex.HarnessError('int shim')
+    return notes
